@@ -17,7 +17,7 @@ LEVEL = 'other'
 MANIFEST = {
     'engine': 'pysym',
     'level': 'other',
-    'technique': 'symbolic execution of query_traversal per node class against a visit-log contract; recursion by contract, lists by uniform-iteration summary; spec derived from the real printers',
+    'technique': 'symbolic execution of query_traversal per node class against a visit-log contract; recursion by contract, lists by uniform-iteration summary; spec derived from the real printers; for a class the engine cannot execute, the real walker on every corpus / template statement containing the class (bounded)',
     'text': 'For every ASTNode class the walker is executed symbolically on an arbitrary node of that class (children opaque, lists of '
             'arbitrary length, every None-ness combination) with the recursive calls replaced by the contract. One obligation per '
             '(class, child slot) for coverage, flags, replacement frame and visitor-called-with-None, and per (class, slot pair) for textual '
